@@ -211,21 +211,72 @@ func perms(n int) [][]int {
 	return out
 }
 
-// reencodeJSON rewrites a JSON document with another object-key order and
-// naming style: 0 as is, 1 keys descending, 2 keys ascending, 3 rotated, 4..7 the
-// same with snake_case field names turned into camelCase (not used: the OpenFGA
-// protos pin json_name to snake_case, so camelCase is not an encoding of the same model).
+// reencodeJSON rewrites a JSON document as another encoding of the same model. enc%4 chooses the order of object keys
+// (sorted, reversed, as sorted, rotated), enc/4 the style: 0 compact; 1 indented, with blanks around every token and every
+// string written with \u escapes only; 2 with the optional parts that are absent spelled out as explicit defaults (null
+// metadata / relations / conditions, "id": "", "condition": "" on a restriction, "module": "" ...), which proto3 JSON reads
+// as absent. (camelCase field names are not an encoding of the same model: the OpenFGA protos pin json_name to snake_case.)
 func reencodeJSON(js []byte, enc int) []byte {
 	var v any
 	if err := json.Unmarshal(js, &v); err != nil {
 		panic(err)
 	}
+	style := enc / 4
 	var sb strings.Builder
-	camel := enc >= 4
-	var w func(v any, inMap bool)
-	w = func(v any, inMap bool) {
+	str := func(s string) {
+		if style != 1 {
+			b, _ := json.Marshal(s)
+			sb.Write(b)
+			return
+		}
+		sb.WriteString("\"")
+		for _, r := range s {
+			if r > 0xffff {
+				r -= 0x10000
+				fmt.Fprintf(&sb, "\\u%04x\\u%04x", 0xd800+(r>>10), 0xdc00+(r&0x3ff))
+			} else {
+				fmt.Fprintf(&sb, "\\u%04x", r)
+			}
+		}
+		sb.WriteString("\"")
+	}
+	sep := func(s string) {
+		if style == 1 {
+			sb.WriteString(" \n\t " + s + " \r\n ")
+		} else {
+			sb.WriteString(s)
+		}
+	}
+	// kind: what the object is ("root", "typedef", "relref", "" = anything else), decided by the key it hangs under
+	var w func(v any, inMap bool, kind string)
+	w = func(v any, inMap bool, kind string) {
 		switch x := v.(type) {
 		case map[string]any:
+			if style == 2 && !inMap {
+				y := map[string]any{}
+				for k, e := range x {
+					y[k] = e
+				}
+				add := func(k string, d any) {
+					if _, ok := y[k]; !ok {
+						y[k] = d
+					}
+				}
+				switch kind {
+				case "root":
+					add("id", "")
+					add("conditions", nil)
+				case "typedef":
+					add("metadata", nil)
+					add("relations", nil)
+				case "relref":
+					add("condition", "")
+				case "relmeta":
+					add("module", "")
+					add("source_info", nil)
+				}
+				x = y
+			}
 			keys := make([]string, 0, len(x))
 			for k := range x {
 				keys = append(keys, k)
@@ -241,38 +292,48 @@ func reencodeJSON(js []byte, enc int) []byte {
 					keys = append(keys[1:], keys[0])
 				}
 			}
-			sb.WriteString("{")
+			sep("{")
 			for i, k := range keys {
 				if i > 0 {
-					sb.WriteString(",")
+					sep(",")
 				}
-				name := k
-				// map-valued fields hold user names as keys: never restyle those
-				if camel && !inMap {
-					name = toCamel(k)
-				}
-				kb, _ := json.Marshal(name)
-				sb.Write(kb)
-				sb.WriteString(":")
+				str(k)
+				sep(":")
+				// map-valued fields hold user names as keys
 				userKeys := !inMap && (k == "relations" || k == "conditions" || k == "parameters")
-				w(x[k], userKeys)
+				sub := ""
+				switch {
+				case inMap && kind == "relmetas":
+					sub = "relmeta"
+				case !inMap && k == "relations" && kind == "metadata":
+					sub = "relmetas"
+				case !inMap && k == "metadata" && kind == "typedef":
+					sub = "metadata"
+				case !inMap && k == "type_definitions":
+					sub = "typedefs"
+				case !inMap && k == "directly_related_user_types":
+					sub = "relrefs"
+				}
+				w(x[k], userKeys, sub)
 			}
-			sb.WriteString("}")
+			sep("}")
 		case []any:
-			sb.WriteString("[")
+			sep("[")
 			for i, e := range x {
 				if i > 0 {
-					sb.WriteString(",")
+					sep(",")
 				}
-				w(e, false)
+				w(e, false, strings.TrimSuffix(kind, "s"))
 			}
-			sb.WriteString("]")
+			sep("]")
+		case string:
+			str(x)
 		default:
 			b, _ := json.Marshal(x)
 			sb.Write(b)
 		}
 	}
-	w(v, false)
+	w(v, false, "root")
 	return []byte(sb.String())
 }
 
@@ -394,7 +455,7 @@ func c14One(ctx *core.Ctx, tag string, m *ref.Model, thorough bool) {
 				if err != nil {
 					panic(err)
 				}
-				for enc := 0; enc < 4; enc++ {
+				for enc := 0; enc < 12; enc++ {
 					ctx.Trans(1)
 					c := cs
 					c.JSONEnc = enc
@@ -568,7 +629,7 @@ func init() {
 		ID: "C14",
 		Rule: "plain models (generator families) and modular models (3 types x 7 module/file attributions incl. file names with space # , : , module without file and file without module; relations attributed to extensions; 3 conditions) and size sweeps (4..128 relations / types / conditions over five tied (module, file) groups incl. module without file and unattributed; plain sweeps; single deviations at every map site instead of full permutations) " +
 			"x both option values x every permutation of the type-definition list (modular) / reversal (plain) x map schedules of the printer's three map-iteration sites " +
-			"(each site fully permuted on its own, plus every pair of deviations anywhere) x 4 JSON encodings (object key order as marshalled/descending/ascending/rotated, at every nesting level). " +
+			"(each site fully permuted on its own, plus every pair of deviations anywhere) x 12 JSON encodings (object key order as marshalled/descending/ascending/rotated at every nesting level x three styles: compact; white space around every token with every string in \\u escapes; absent optional parts spelled out as explicit null / empty defaults). " +
 			"states = distinct DSL texts, non-trivial = distinct (plain, with-source) output pairs",
 		Assume: []string{
 			"map iteration order is owned by source rewriting of every `range <map>` in pkg/go/transformer (controlled iteration); protojson/encoding of third parties is treated as atomic",
